@@ -6,14 +6,14 @@ import (
 	"encoding/json"
 	"flag"
 	"fmt"
-	"os"
-	"os/exec"
 	"go/ast"
 	"go/importer"
 	"go/parser"
 	"go/token"
 	"go/types"
 	"io/fs"
+	"os"
+	"os/exec"
 	"strings"
 	"sync"
 	"time"
@@ -122,11 +122,12 @@ func c12TypeCheck(src string, wantInfo bool) (*c12Checked, error) {
 // ---------------------------------------------------------------- implementation: yaegi
 
 // c12Obs is the projected observable of one evaluation.
-//   rejected   Eval returned a non-nil error and nothing was written
-//   accepted   Eval returned nil (the program ran)
-//   printed    Eval returned an error but bytes were written to Stdout/Stderr before
-//   host-panic Eval panicked in the host instead of returning
-//   timeout
+//
+//	rejected   Eval returned a non-nil error and nothing was written
+//	accepted   Eval returned nil (the program ran)
+//	printed    Eval returned an error but bytes were written to Stdout/Stderr before
+//	host-panic Eval panicked in the host instead of returning
+//	timeout
 type c12Obs struct {
 	Class  string `json:"class"`
 	Err    string `json:"err,omitempty"`
